@@ -162,7 +162,10 @@ pub enum FlatFn { Rep(usize), Upto, Ifeven, Twice }
 #[derive(Clone, Debug)]
 pub enum KeyFn { Kmod(i64), Kself, Kconst(i64), Kstr }
 #[derive(Clone, Debug)]
-pub enum BatchFn { Each(Fn_), Rev, Sumall, /* round 3: length-CHANGING chunk functions */ Droplast, Dupfirst }
+pub enum BatchFn { Each(Fn_), Rev, Sumall, /* round 3: length-CHANGING chunk functions */ Droplast, Dupfirst,
+    /// one row per chunk holding the chunk length: non-empty on the EMPTY slice (the real chunk loop never calls the
+    /// function on an empty partition; an operator that does becomes visible)
+    Countrow }
 #[derive(Clone, Debug, PartialEq)]
 pub enum Comb { Count, Sum, Min, Max, MinT, MaxT, Dset, Topk(usize),
     /// USER combiners with non-`Option` accumulators (`pipe_ucomb.rs`): (sum mod m, count) pair; sorted-`Vec` union; max by (|x|, x)
@@ -246,10 +249,11 @@ impl BatchFn {
             BatchFn::Sumall => { let s = c.iter().fold(0i64, |a, x| a.wrapping_add(x.to_int())); c.iter().map(|_| V::I(s)).collect() }
             BatchFn::Droplast => c[..c.len().saturating_sub(1)].to_vec(),
             BatchFn::Dupfirst => match c.first() { Some(x) => std::iter::once(x.clone()).chain(c.iter().cloned()).collect(), None => vec![] },
+            BatchFn::Countrow => vec![V::I(c.len() as i64)],
         }
     }
     pub fn enc(&self) -> String {
-        match self { BatchFn::Each(f) => format!("each {}", f.enc()), BatchFn::Rev => "rev".into(), BatchFn::Sumall => "sumall".into(), BatchFn::Droplast => "droplast".into(), BatchFn::Dupfirst => "dupfirst".into() }
+        match self { BatchFn::Each(f) => format!("each {}", f.enc()), BatchFn::Rev => "rev".into(), BatchFn::Sumall => "sumall".into(), BatchFn::Droplast => "droplast".into(), BatchFn::Dupfirst => "dupfirst".into(), BatchFn::Countrow => "countrow".into() }
     }
     pub fn elementwise(&self) -> bool { matches!(self, BatchFn::Each(_)) }
 }
